@@ -56,7 +56,12 @@ func classIndex(c string) int {
 	return 99
 }
 
-func parseOneLine(text string) (*dictionary.Dictionary, int) {
+func parseOneLine(text string) (d *dictionary.Dictionary, class int) {
+	defer func() {
+		if recover() != nil {
+			d, class = nil, 98 // the parser panicked on this line
+		}
+	}()
 	o := newDpOpener()
 	p := dictionary.Parser{Opener: o}
 	d, err := p.Parse(o.handle("root", []byte(text)))
